@@ -91,6 +91,14 @@ def _cmp(e, c, a):
 @model('std::cmp::min', 'std::cmp::max', 'cmp::min', 'cmp::max')
 def _minmax(e, c, a):
     x, y = a
+    if isinstance(x, (Struct, Enum)):
+        m = re.search(r'(?:min|max)::<(.*)>$', c)
+        f = e.resolve('<%s as Ord>::cmp' % m.group(1)) if m else None
+        if f is None: raise Unsupported('min/max on %r' % (x,))
+        o = e.call_mir(f, [Ref([y], 0), Ref([x], 0)])
+        lt = o.v == 'Less'
+        if strip_generics(c).endswith('min'): return y if lt else x
+        return x if lt else y        # std::cmp::max returns the second argument when equal; identical values here
     lt = e.branch(e.binop('Lt', y, x, 'usize'))
     if strip_generics(c).endswith('min'): return y if lt else x
     return x if lt else y
